@@ -60,6 +60,7 @@ type xf struct {
 	curFn    string
 	virtPath string // import path the transformed module root gets
 	warn     []string
+	plain    bool
 	captured map[*types.Var]bool // locals of the current function that a `go func(){...}` literal captures
 }
 
@@ -70,6 +71,7 @@ func main() {
 	overlay := flag.String("overlay", "", "overlay json to write")
 	virt := flag.String("virt", "", "directory (inside the engine module) where the overlay places the transformed module")
 	virtImport := flag.String("virtimport", "verif/gldapx", "import path of -virt")
+	plain := flag.Bool("plain", false, "only re-home the packages (import paths, export files): no instrumentation, no re-binding")
 	flag.Parse()
 	if *out == "" || *virt == "" {
 		fmt.Fprintln(os.Stderr, "usage: vxform -src DIR -out DIR -export DIR -overlay FILE -virt DIR")
@@ -118,7 +120,7 @@ func main() {
 			}
 			os.Exit(2)
 		}
-		x := &xf{pkg: p, virtPath: *virtImport}
+		x := &xf{pkg: p, virtPath: *virtImport, plain: *plain}
 		rel, _ := filepath.Rel(modPath, p.PkgPath)
 		if p.PkgPath == modPath {
 			rel = "."
@@ -201,6 +203,9 @@ func (x *xf) file(f *ast.File) {
 					x.curFn = fmt.Sprintf("%s.(%s%s).%s", x.pkg.Name, star, id.Name, fd.Name.Name)
 				}
 			}
+		}
+		if x.plain {
+			continue
 		}
 		x.captured = map[*types.Var]bool{}
 		x.findCaptured(d)
